@@ -11,7 +11,7 @@ import sys
 HERE = os.path.dirname(os.path.dirname(os.path.abspath(__file__)))
 sys.path.insert(0, HERE)
 sys.path.insert(0, os.path.join(os.environ.get("VERIF_REPO", "/repo"), "src"))
-os.environ["YAW_NUM_THREADS"] = "2" if (len(sys.argv) > 1 and sys.argv[1].endswith("p")) else "1"
+os.environ["YAW_NUM_THREADS"] = "2" if (len(sys.argv) > 1 and sys.argv[1].lower().endswith("p")) else "1"
 
 B1 = [0.1, 0.2, 0.4]
 B2 = [0.1, 0.3, 0.4]
@@ -93,7 +93,7 @@ def main():
     R = os.path.join(base, "R")
     if phase == "setup":
         os.makedirs(base, exist_ok=True)
-        if wl in ("W1", "W1p", "W1b"):
+        if wl in ("W1", "W1p", "W1b", "W1P"):
             pass
         elif wl in ("W2", "W2p"):
             make(R, old)
@@ -114,8 +114,25 @@ def main():
             else:
                 conf.to_file(os.path.join(base, "conf.yml"))
     elif phase == "work":
-        if wl in ("W1", "W1p"):  # W1p: two workers, the writer is a process of its own
-            returned(make(R, new, chunksize=3))
+        if wl in ("W1", "W1p", "W1P"):  # W1p/W1P: two workers, the writer is a process of its own
+            kill_at = int(os.environ.get("W1P_KILL_AT_CHUNK", "0"))
+            if wl == "W1P" and kill_at:
+                # the main process dies (SIGKILL) at the instant it asks its source for the k-th chunk; pool workers,
+                # manager and writer process are left behind
+                import signal
+
+                from yaw.catalog import readers
+
+                orig, seen = readers.DataFrameReader._get_next_chunk, [0]
+
+                def dying(self):
+                    seen[0] += 1
+                    if seen[0] == kill_at:
+                        os.kill(os.getpid(), signal.SIGKILL)
+                    return orig(self)
+
+                readers.DataFrameReader._get_next_chunk = dying
+            returned(make(R, new, chunksize=1 if wl == "W1P" else 3))
         elif wl in ("W2", "W2p"):
             returned(make(R, new, chunksize=3, overwrite=True))
         elif wl == "W1b":
